@@ -270,7 +270,7 @@ pub fn run_c08(ctx: &Ctx) -> (Report, String) {
         let mut rng = Rng::new(ctx.seed ^ 0xC08, s as u64);
         crate::mon::guarded(&mut rep, || J::obj().set("property", "C08").set("w", w), |rep| {
             for h in 1..=maxd {
-                for fill in 0..3 {
+                for fill in (0..3).filter(|f| !ctx.miri() || *f == h % 3) {
                     c08_image(&k, &mut rng, w, h, fill, rep);
                 }
             }
